@@ -10,7 +10,7 @@ from .core import dec, enc, exc_class
 
 NUMPY_METHODS = ["auto", "fd", "doane", "scott", "stone", "rice", "sturges", "sqrt"]
 ALL_METHODS = ["quantile", "uniform"] + NUMPY_METHODS
-CATS = ["a", "b", "c", "d", "e", "zebra", "yak", "other 2", "other 3", "_other 3", "Other", "ö", "x y", "other", "m"]
+CATS = ["a", "b", "c", "d", "e", "zebra", "yak", "other 2", "other 3", "_other 3", "_other 2", "__other 2", "other 4", "_other 4", "Other", "ö", "x y", "other", "m"]
 
 
 def cell_json(v):
@@ -103,6 +103,8 @@ def gen_string_feature(rng, n, dtype=None):
     dtype = dtype or rng.choice(["str", "str", "cat", "enum"])
     k = rng.randint(1, min(10, len(CATS)))
     cats = rng.sample(CATS, k)
+    if rng.random() < 0.25:  # real categories that look like the pooled name and its escaped variants
+        cats = list(dict.fromkeys(cats[: max(1, k - 3)] + rng.sample(["other 2", "_other 2", "__other 2", "other 3", "_other 3", "other 4", "_other 4"], 3)))
     weights = [rng.choice([1, 1, 2, 3, 5]) for _ in cats]
     vals = rng.choices(cats, weights=weights, k=n)
     r = rng.random()
